@@ -326,3 +326,8 @@ func VerifC09_BatchSetRelations() {
 	b.expect("addrel", OnAddRelations, changed)
 	vreach("end")
 }
+
+func VerifC09_RelTypedNew()        { vStepObserved(true, 9) }
+func VerifC09_PlainTypedAdd()      { vStepObserved(false, 10) }
+func VerifC09_PlainTypedExchange() { vStepObserved(false, 11) }
+func VerifC09_RelTypedRemove()     { vStepObserved(true, 12) }
